@@ -301,6 +301,29 @@ def switch_anything_alias(ev, mods, imps, rnd, acc):
     acc.count("rule_objects_switched_between_anything_aliases")
 
 
+def interleaved_construction(ev, mods, imps, rnd, acc, forced=None):
+    """2-4 rule objects are under construction at the same time (their fluent calls interleaved at random), then applied
+    in another order: every object must carry exactly what was said to IT."""
+    from ..drive import mk_rules_interleaved, random_interleaving
+
+    if forced:
+        cfgs, order, eval_order, lf = forced
+    else:
+        cfgs = [c for c in (random_cfg(rnd, mods) for _ in range(rnd.randint(2, 4))) if c is not None]
+        if len(cfgs) < 2:
+            return
+        lf = rnd.random() < 0.5
+        order = random_interleaving(rnd, cfgs, lf)
+        eval_order = list(range(len(cfgs)))
+        rnd.shuffle(eval_order)
+    rules = mk_rules_interleaved(cfgs, order, lf)
+    for k in eval_order:
+        HUB.case = {"kind": "interleaved", "mods": mods, "imps": imps, "cfgs": cfgs, "order": order, "eval_order": eval_order, "list_form": lf, "applied": k, "cfg": cfgs[k]}
+        run(rules[k], ev)
+        acc.evaluated()
+    acc.count("rules_built_interleaved", len(cfgs))
+
+
 def dot_twin_batches(rnd, acc):
     """'anything' over two subjects whose names coincide once a dot is read as "any character" (r.a.b next to
     r.a_b.x, r.a-b.x, r.a·b.x): two different, unrelated modules - judged by the sound lower bound for batches."""
@@ -329,6 +352,8 @@ def randomised(spec, acc):
             switch_anything_alias(ev, mods, imps, rnd, acc)
         if rnd.random() < 0.2:
             dot_twin_batches(rnd, acc)
+        if rnd.random() < 0.25:
+            interleaved_construction(ev, mods, imps, rnd, acc)
         for _ in range(12):
             cfg = random_cfg(rnd, mods)
             if cfg is None:
@@ -353,6 +378,14 @@ def replay(case, acc):
             getattr(r, n)()
             HUB.case = dict(case, step=step)
             run(r, ev)
+        return
+    if case.get("kind") == "interleaved":
+        ev = build(case["mods"], [tuple(i) for i in case["imps"]])
+        cfgs = case["cfgs"]
+        for c in cfgs:
+            c["subs"] = [tuple(x) for x in c["subs"]]
+            c["objs"] = [tuple(x) for x in c["objs"]]
+        interleaved_construction(ev, case["mods"], case["imps"], None, acc, forced=(cfgs, case["order"], case["eval_order"], case["list_form"]))
         return
     ev = build(case["mods"], [tuple(i) for i in case["imps"]])
     HUB.case = case
@@ -381,6 +414,8 @@ def floors(acc, tier):
         why.append(f"only {acc.counters['big_cases']} evaluations on big architectures (80+ modules, batches of 10+)")
     if acc.counters["rules_retargeted_after_application"] < 100:
         why.append(f"only {acc.counters['rules_retargeted_after_application']} rules built by re-targeting an applied rule prefix")
+    if acc.counters["rules_built_interleaved"] < 100:
+        why.append(f"only {acc.counters['rules_built_interleaved']} rules built while other rules were under construction")
     if acc.counters["c01_judged_nested_lists"] < 100:
         why.append(f"only {acc.counters['c01_judged_nested_lists']} rules with nested module lists on one side judged")
     if acc.counters["c01_judged"] < 10000:
